@@ -67,6 +67,7 @@ type lcClient struct {
 	natSids       int
 	NatSidList    []string   // session ids handed to this client's xtcp proxies
 	HTTPSeen      []httpSeen // requests the http responder of this client saw
+	WorkKey       string     // if set: the token work connections are signed with (may be wrong on purpose)
 	SilentUnknown bool       // work connections for proxies this client did not record are drained silently
 	WorkFrames    []RecvMsg  // first frame received on each work connection
 }
@@ -145,6 +146,9 @@ func (c *lcClient) serveWork(alive bool) {
 	key := c.Opts.Token
 	if c.Opts.RawKeys {
 		key = c.Opts.LoginKey
+	}
+	if c.WorkKey != "" {
+		key = c.WorkKey
 	}
 	conn, err := c.OfferWorkConn(c.RunID, true, key)
 	if err != nil {
@@ -406,6 +410,11 @@ func (e *lcEnv) probeHTTP(host, path string, wait time.Duration) (servedBy strin
 
 // probeHTTPUser is probeHTTP with a Basic Authorization header naming user (the user http routes may be restricted to).
 func (e *lcEnv) probeHTTPUser(host, path, user string, wait time.Duration) (servedBy string, status int, err error) {
+	return e.probeHTTPAuth(host, path, basic(user, "x"), wait)
+}
+
+// probeHTTPAuth is probeHTTP with the given Authorization header value ("" = none).
+func (e *lcEnv) probeHTTPAuth(host, path, authz string, wait time.Duration) (servedBy string, status int, err error) {
 	ip := fmt.Sprintf("10.0.3.%d", 1+e.userIP%250)
 	e.userIP++
 	conn, err := simnet.DialFrom(ip, fmt.Sprintf("10.0.0.1:%d", e.httpPort), 10*time.Second)
@@ -413,7 +422,11 @@ func (e *lcEnv) probeHTTPUser(host, path, user string, wait time.Duration) (serv
 		return "", 0, err
 	}
 	defer conn.Close()
-	fmt.Fprintf(conn, "GET %s HTTP/1.1\r\nHost: %s\r\nAuthorization: %s\r\nConnection: close\r\n\r\n", path, host, basic(user, "x"))
+	ah := ""
+	if authz != "" {
+		ah = "Authorization: " + authz + "\r\n"
+	}
+	fmt.Fprintf(conn, "GET %s HTTP/1.1\r\nHost: %s\r\n%sConnection: close\r\n\r\n", path, host, ah)
 	conn.SetReadDeadline(time.Now().Add(wait))
 	br := bufio.NewReader(conn)
 	line, err := br.ReadString('\n')
@@ -436,6 +449,15 @@ func (e *lcEnv) probeHTTPUser(host, path, user string, wait time.Duration) (serv
 // probeCONNECT sends CONNECT host:443 to the tcpmux port (optionally naming a user) and returns the identity
 // line of the backend that answered.
 func (e *lcEnv) probeCONNECT(host, user string, wait time.Duration) (servedBy string, err error) {
+	authz := ""
+	if user != "" {
+		authz = basic(user, "x")
+	}
+	return e.probeCONNECTAuth(host, authz, wait)
+}
+
+// probeCONNECTAuth is probeCONNECT with the given Proxy-Authorization header value ("" = none).
+func (e *lcEnv) probeCONNECTAuth(host, authz string, wait time.Duration) (servedBy string, err error) {
 	ip := fmt.Sprintf("10.0.3.%d", 1+e.userIP%250)
 	e.userIP++
 	conn, err := simnet.DialFrom(ip, fmt.Sprintf("10.0.0.1:%d", e.muxPort), 10*time.Second)
@@ -444,8 +466,8 @@ func (e *lcEnv) probeCONNECT(host, user string, wait time.Duration) (servedBy st
 	}
 	defer conn.Close()
 	h := ""
-	if user != "" {
-		h = "Proxy-Authorization: " + basic(user, "x") + "\r\n"
+	if authz != "" {
+		h = "Proxy-Authorization: " + authz + "\r\n"
 	}
 	fmt.Fprintf(conn, "CONNECT %s:443 HTTP/1.1\r\nHost: %s:443\r\n%s\r\n", host, host, h)
 	conn.SetReadDeadline(time.Now().Add(wait))
